@@ -18,6 +18,8 @@ class CountedYieldLoop:
     and emit nothing; (B) after the loop the trace has gained max(count, 0) discarded Needs.
     A concrete count is unrolled."""
 
+    kind = "for"
+
     def __init__(self, label="consume_bytes"):
         self.label = label
 
@@ -56,8 +58,9 @@ class OneStepLoop:
     """step refinement: execute the loop body exactly once from a given state (locals installed at the loop head);
     the outcome (how the body ended, locals afterwards) is left in ctx.ghost['step']; yields go to the driver"""
 
-    def __init__(self, state):
+    def __init__(self, state, kind=None):
         self.state = state
+        self.kind = kind
 
     def run(self, I, node, frame):
         from .interp import _Continue, _Break
